@@ -128,9 +128,12 @@ impl Selector<St, u32> for Sel {
 struct Ctx {
     stores: Vec<Store>,
     subs: StdMutex<HashMap<u32, Box<dyn Subscription>>>,
-    shared_subs: StdMutex<HashMap<u32, Arc<ScriptSub>>>,
+    /// weak: the harness itself must not keep an unsubscribed subscriber alive
+    shared_subs: StdMutex<HashMap<u32, std::sync::Weak<ScriptSub>>>,
     gates: [Gate; 3],
     droppable: StdMutex<Option<DroppableStore<St, Act>>>,
+    /// the program contains AddSharedSub
+    share: bool,
 }
 
 fn exec(ctx: &Arc<Ctx>, si: usize, op: &Op) {
@@ -176,18 +179,22 @@ fn exec(ctx: &Arc<Ctx>, si: usize, op: &Op) {
                 gate: if *gated { Some(ctx.gates[2]) } else { None },
                 read_from: if *reads { Some(Arc::downgrade(store)) } else { None },
                 forward_to: None,
+                pad: Default::default(),
             });
-            ctx.shared_subs.lock().unwrap().insert(*id, sub.clone());
+            // (a Weak keeps the allocation alive too: only where the program shares subscribers)
+            if ctx.share {
+                ctx.shared_subs.lock().unwrap().insert(*id, Arc::downgrade(&sub));
+            }
             let s = add_subscriber(store, sub, *id);
             ctx.subs.lock().unwrap().insert(*id, s);
         }
         Op::AddForwardSub { id, to, off } => {
-            let sub = Arc::new(ScriptSub { id: *id, gate: None, read_from: None, forward_to: Some((Arc::downgrade(&ctx.stores[*to]), *off)) });
+            let sub = Arc::new(ScriptSub { id: *id, gate: None, read_from: None, forward_to: Some((Arc::downgrade(&ctx.stores[*to]), *off)), pad: Default::default() });
             let s = add_subscriber(store, sub, *id);
             ctx.subs.lock().unwrap().insert(*id, s);
         }
         Op::AddSharedSub { id } => {
-            let sub = ctx.shared_subs.lock().unwrap().get(id).cloned().expect("shared sub");
+            let sub = ctx.shared_subs.lock().unwrap().get(id).and_then(|w| w.upgrade()).expect("shared sub");
             let s = add_subscriber(store, sub, *id);
             ctx.subs.lock().unwrap().insert(*id + 50, s);
         }
@@ -207,6 +214,7 @@ fn exec(ctx: &Arc<Ctx>, si: usize, op: &Op) {
                 gate: if *gated { Some(ctx.gates[2]) } else { None },
                 read_from: if *reads { Some(Arc::downgrade(store)) } else { None },
                 forward_to: None,
+                pad: Default::default(),
             });
             let s = subscribed_with(store, *cap, *pol, sub, *id);
             ctx.subs.lock().unwrap().insert(*id, s);
@@ -360,6 +368,16 @@ pub fn run(p: &Program) {
         shared_subs: StdMutex::new(HashMap::new()),
         gates,
         droppable: StdMutex::new(droppable),
+        share: {
+            fn has(op: &Op) -> bool {
+                match op {
+                    Op::AddSharedSub { .. } => true,
+                    Op::On(_, o) => has(o),
+                    _ => false,
+                }
+            }
+            p.main.iter().any(has) || p.threads.iter().any(|t| t.2.iter().any(has))
+        },
     });
     let mut handles = vec![];
     for op in &p.main {
